@@ -134,6 +134,8 @@ def main(argv):
     tier = common.tier()
     n = 3000 if tier == "quick" else 120000
     rep = common.Report(PROP)
+    from checks import minimise as _MIN
+    rep.minimiser = lambda f: _MIN.scenario(f, lambda scn, seed: check_scenario(scn, seed)) if f.get('kind') != 'probe' else f
     items = [("probe", k) for k in sorted(PROBES)] + list(range(n))
     for r in common.run_batch("checks.c01", "run_one", items, {"tier": tier}):
         rep.absorb(r)
@@ -154,7 +156,7 @@ def replay(path):
         rec = json.load(f)
     r = check_scenario(rec["scenario"], rec["seed"])
     same = [f for f in r["findings"] if f["rule"] == rec["rule"]]
-    print("replay %s: %s" % (path, "REPRODUCED rule=%s" % rec["rule"] if same else "not reproduced"))
+    print("replay %s: %s" % (path, "REPRODUCED rule=%s%s" % (rec["rule"], common.digest_note(rec, same)) if same else "not reproduced"))
     for f in same:
         print("  ", f["detail"][:500])
     return 1 if same else 0
